@@ -23,6 +23,13 @@ def run(ctx):
         if name == "kinds":
             recs = ctx.read_ndjson(of)
             ctx.samples = [dict(text=x["obs"]["text"], printed=x["obs"].get("str")) for x in recs[5:len(recs):len(recs) // 5]]
+    # the repository's own test statements (~400, in the maintainers' spellings) as an extra trace source
+    of = ctx.path("obs_repo.ndjson")
+    ctx.drive("c01", None, of, args=["repo-corpus"])
+    if ctx.count_lines(of) < 100:
+        raise vp.Broken("repo corpus: only %d statements harvested from the repository's test files" % ctx.count_lines(of))
+    ctx.judge("Judge_c02", "Judge_c02.cfg", of, label="repo")
+    ctx.note("repo corpus: %d statements from the repository's own tests" % ctx.count_lines(of))
     return vp.case_finder
 
 
